@@ -37,6 +37,7 @@ type xOpt struct {
 	Flate bool   `json:"flate"`
 	Eol   string `json:"eol"`
 	Split bool   `json:"split"`
+		Compact bool `json:"compact"`
 }
 
 type xCase struct {
@@ -86,6 +87,9 @@ func xBuild(c *xCase) ([]byte, int, error) {
 	n := len(c.Revs[0].Ops)
 	lh, cat, pgs := n+1, n+2, n+3
 	next := n + 10
+	if c.Opt.Compact {
+		next = n + 4
+	}
 	bl := 6
 	if c.Opt.Big {
 		bl = 5000
